@@ -26,6 +26,7 @@ CONFIGS = [
     ("rate50of2", C(frate=50, fexec=2, period=20), TT),
     ("rate34of3", C(frate=34, fexec=3, period=20, delay=0), TT),
     ("rate50of2_s2of3", C(frate=50, fexec=2, period=20, sthr=2, scap=3), TT),
+    ("rate38of8", C(frate=38, fexec=8, period=20, delay=1), [1, 3]),     # 8 trials; 3 failures + 5 successes meet both rounded conditions (latitude)
     ("count1_forever", C(delay=2000000000), CT),      # "open until closed by hand": the harness builds it with the largest Duration
 ]
 
